@@ -422,6 +422,38 @@ type ResultCase struct {
 	All []ssa.Value
 }
 
+// CellOrigin: the value a local variable cell holds when it is stored exactly once (a struct kept in a variable
+// so that its fields can be addressed is the value that was stored).
+func CellOrigin(v ssa.Value) ssa.Value {
+	v = Unwrap(v)
+	for i := 0; i < 4; i++ {
+		var cell *ssa.Alloc
+		switch x := v.(type) {
+		case *ssa.Alloc:
+			cell = x
+		case *ssa.UnOp:
+			if a, ok := x.X.(*ssa.Alloc); ok && x.Op == token.MUL {
+				cell = a
+			}
+		}
+		if cell == nil {
+			return v
+		}
+		var stored ssa.Value
+		n := 0
+		for _, ref := range *cell.Referrers() {
+			if st, ok := ref.(*ssa.Store); ok && st.Addr == ssa.Value(cell) {
+				stored, n = st.Val, n+1
+			}
+		}
+		if n != 1 {
+			return v
+		}
+		v = Unwrap(stored)
+	}
+	return v
+}
+
 // Leaf is where a value ultimately comes from when helper returns are followed: the value in the frame of the
 // function that produced it, the facts of every frame on the way (unioned), and that frame's return.
 type Leaf struct {
@@ -437,9 +469,9 @@ func (s *Sem) Leaves(k Conj, fn *ssa.Function, ret *ssa.Return, v ssa.Value, sto
 	v = Unwrap(v)
 	// a field of the struct a helper handed back: the value the helper stored into that field, per return
 	if base, field, ok := FieldOfLoad(v); ok && depth > 0 {
-		b := Unwrap(base)
+		b := CellOrigin(base)
 		if u, isU := b.(*ssa.UnOp); isU && u.Op == token.MUL {
-			b = Unwrap(u.X)
+			b = CellOrigin(u.X)
 		}
 		if call, _ := callResult(b); call != nil && (stop == nil || !stop(call)) {
 			if cases, isCall := s.ResultCases(k, b); isCall && len(cases) > 0 {
